@@ -1,4 +1,5 @@
 """C05 - bound names and data-dependent predicates see the values parsed earlier."""
+import engine
 import pegcheck
 
 
@@ -12,4 +13,9 @@ def run(chk):
     chk.assumptions += ['environments of PegSem with the closed inline-Python repertoire PyEval/PyCall',
                         'LawRebindExercised guards against a family in which the abandon-and-rebind path is never taken']
     cases = pegcheck.collect(chk, 'MC_C05', 'MC_C05_' + chk.tier, timeout_s=3000)
-    pegcheck.replay(chk, cases, sample_every=9973)
+    # the same grammars with closures spelled `lambda v_, x=x: ...` (the lambda's own parameters carry grammar names)
+    extra = engine.with_lambda_defaults(cases)
+    for k, c in enumerate(extra):
+        c['id'] = len(cases) + k
+    chk.notes['lambda_default_spellings'] = len(extra)
+    pegcheck.replay(chk, cases + extra, sample_every=9973)
